@@ -135,6 +135,134 @@ def sat_state(cx, rng, regs, ptrs, flag, conds):
     return None
 
 
+def special_part(run, quick):
+    """(A) conditional values guarded by path conditions that repeat, negate or swap the operands of their test;
+    (B) aliasing not assumed away: one map stores at an absolute address, the other through a register that, in the state,
+    points at or next to it.  Oracle: on a concrete state (with concrete memory) that satisfies a map's conditions, the value
+    every stored location has in that map - and in the other map, when its conditions hold too - is among the candidates the
+    merged map gives there."""
+    cx = c01.Ctx()
+    E = cx.E
+    from amoco.cas.mapper import merge
+    from amoco.cas.expressions import is_reg_flags
+    rng = random.Random(run.seed * 4447 + 19)
+    x, y, a, b, r = (E.reg(n, 32) for n in ("x", "y", "a", "b", "r"))
+    zf = is_reg_flags(E.reg("zf", 1))
+    ABS = 0x1000
+
+    def state(conds, alias):
+        for _ in range(12):
+            env = {x: rng.choice([0, 3, 7, rng.getrandbits(32)]), y: rng.choice([0, 3, 7, rng.getrandbits(32)]), a: rng.getrandbits(32), b: rng.getrandbits(32),
+                   r: rng.getrandbits(32)}
+            if alias:
+                env[y] = ABS + rng.choice([0, 0, 1, 2, 4, -2, -4, 64])
+            st = cx.mapper()
+            for g, v in env.items():
+                st[g] = E.cst(v & 0xFFFFFFFF, 32)
+            st[zf] = E.cst(1, 1)
+            st.mmap.write(ABS - 32, bytes(rng.getrandbits(8) for _ in range(160)))
+            try:
+                if all(st(c)._is_cst and st(c).v == 1 for c in conds):
+                    return st, {str(g): hex(v & 0xFFFFFFFF) for g, v in env.items()}
+            except Exception:
+                return None
+        return None
+
+    for it in range(160 if quick else 3000):
+        kind = "tst" if it % 2 == 0 else "alias"
+        m1, m2 = cx.mapper(), cx.mapper()
+        try:
+            if kind == "tst":
+                sym = rng.choice(["<", "<=", ">", ">=", "==", "!="])
+                neg = {"<": ">=", "<=": ">", ">": "<=", ">=": "<", "==": "!=", "!=": "=="}
+                test = E.oper(sym, x, y)
+                m1[r] = E.tst(test, a, b) if rng.random() < 0.7 else E.tst(test, a + 1, E.cst(5, 32))
+                form = rng.choice(["same", "negated", "swapped", "swapped-negated"])
+                c2 = {"same": lambda: E.oper(sym, x, y), "negated": lambda: E.oper(neg[sym], x, y), "swapped": lambda: E.oper(sym, y, x),
+                      "swapped-negated": lambda: E.oper(neg[sym], y, x)}[form]()
+                m1.conds = [zf == E.cst(1, 1), c2] if rng.random() < 0.8 else [c2]
+                m2[r] = E.cst(7, 32)
+                if rng.random() < 0.3:
+                    m2.conds = [E.oper(rng.choice(["<", ">="]), y, x)]
+                desc = {"kind": kind, "test": str(test), "conds": [str(c) for c in m1.conds], "conds2": [str(c) for c in m2.conds]}
+                keys = [r]
+                cx.conf.Cas.noaliasing = True
+            else:
+                cx.conf.Cas.noaliasing = False
+                d1, d2 = rng.choice([0, 0, 4]), rng.choice([0, 0, 4, -4])
+                sz = rng.choice([32, 32, 16, 8])
+                first_abs = rng.random() < 0.5
+                mA, mS = (m1, m2) if first_abs else (m2, m1)
+                mA[E.mem(E.cst(ABS + d1, 32), 32)] = a
+                mS[E.mem(y, sz, disp=d2)] = b[0:sz]
+                # the same stores for the byte-level reference: (map, address given the state, bytes given the state)
+                progs = {id(mA): [(lambda ev: ABS + d1, lambda ev: ev["a"].to_bytes(4, "little"))],
+                         id(mS): [(lambda ev: (ev["y"] + d2) & 0xFFFFFFFF, lambda ev: (ev["b"] & ((1 << sz) - 1)).to_bytes(sz // 8, "little"))]}
+                if rng.random() < 0.3:
+                    mS[E.mem(E.cst(ABS + 8, 32), 32)] = E.cst(0x11223344, 32)
+                    progs[id(mS)].append((lambda ev: ABS + 8, lambda ev: (0x11223344).to_bytes(4, "little")))
+                desc = {"kind": kind, "absolute_store": "M32(%#x)" % (ABS + d1), "pointer_store": "M%d(y%+d)" % (sz, d2), "first_map_is_absolute": first_abs}
+                keys = [E.mem(E.cst(ABS + d1 + k, 32), 8) for k in range(4)] + [E.mem(y, 8, disp=d2 + k) for k in range(sz // 8)]
+            wd = rng.random() < 0.2 and kind == "tst"
+            mm = merge(m1, m2, widening=wd)
+        except Exception as e:
+            run.hist("special_construction_raised", type(e).__name__)
+            cx.conf.Cas.noaliasing = True
+            continue
+        run.count(("special", json.dumps(desc, sort_keys=True), it), nontrivial=True)
+        run.hist("special_pairs", kind)
+        try:
+            for which, mo, other in (("m1", m1, m2), ("m2", m2, m1)):
+                st = state(mo.conds, kind == "alias")
+                if st is None:
+                    continue
+                sx, shown = st
+                for key in keys:
+                    try:
+                        rr = mm[key]
+                        ra = alts_of(rr)
+                        if ra is None or ra[1]:
+                            continue
+                        cands = [sx(z) for z in ra[0]]
+                        if not all(z._is_cst for z in cands):
+                            continue
+                        vals = [("this", sx(mo[key]))]
+                        if all(sx(c)._is_cst and sx(c).v == 1 for c in other.conds):
+                            vals.append(("other", sx(other[key])))
+                    except Exception:
+                        continue
+                    if kind == "alias":
+                        # byte-level reference instead of the maps' own look-ups: the map's stores replayed on the state's memory
+                        ev = {k_: int(v_, 16) for k_, v_ in shown.items()}
+                        try:
+                            addr = sx(key.a.base + key.a.disp) if not key.a.base._is_cst else E.cst(key.a.base.v + key.a.disp, 32)
+                            addr = addr.v & 0xFFFFFFFF
+                        except Exception:
+                            continue
+                        vals = []
+                        for whose, mp in (("this", mo), ("other", other)):
+                            if whose == "other" and not all(sx(c)._is_cst and sx(c).v == 1 for c in other.conds):
+                                continue
+                            cell = None
+                            for af, vf in progs[id(mp)]:
+                                a0, bs = af(ev), vf(ev)
+                                if a0 <= addr < a0 + len(bs):
+                                    cell = bs[addr - a0]
+                            if cell is not None:
+                                vals.append((whose, E.cst(cell, 8)))
+                    for whose, c in vals:
+                        if c._is_cst and c.v not in [z.v for z in cands]:
+                            run.violation("special|%s|value-not-a-candidate" % kind,
+                                          "merge (%s): on a state satisfying the conditions of %s, %s holds %#x in %s map but the merged map offers %s" % (
+                                              kind, which, key, c.v, "that" if whose == "this" else "the other", [hex(z.v) for z in cands]),
+                                          dict(desc, location=str(key), merged=str(rr), state=shown, value=hex(c.v), candidates=[hex(z.v) for z in cands]))
+                            raise StopIteration
+        except StopIteration:
+            pass
+        finally:
+            cx.conf.Cas.noaliasing = True
+
+
 def memmerge_part(run, quick):
     """overlapping constant stores through one pointer in both maps: per-byte alternatives of the merged map vs the
     Gallina model coq/C19/MemMerge.v (merge_mem) and vs the byte-level reference"""
@@ -430,6 +558,7 @@ def check(run):
                           dict(rows_meta[i * 500 + k], **{"theorem_or_correspondence": "Amoco.C19.Corr.check_mg", "case(v1,v2,widening,observed)": sh[k]}), found_input=False)
     run.cov["joins_in_coq"] = n_ok
     n_ok += memmerge_part(run, quick)
+    special_part(run, quick)
     run.cov["traces_validated_against_impl"] = n_ok
     run.cov["trusted_base"] += ["harness/c19.py map generator, alternative extraction (by rendering, as amoco compares expressions)"]
     run.assumptions += ["path conditions are applied by the implementation (mapper.assume) before the comparison; the model starts after that step",
